@@ -78,7 +78,7 @@ func Scenarios(cfg *common.Config) []issuer.Params {
 	var ps []issuer.Params
 	sizes := []int{0, 1, 2, 7, 30, 199}
 	pubs := []*bool{issuer.BP(false), nil, issuer.BP(true)}
-	n := cfg.Pick(12, 60)
+	n := cfg.Pick(10, 60)
 	for i := 0; i < n; i++ {
 		p := issuer.Params{NClaims: sizes[i%len(sizes)], NRevoked: []int{0, 3, 0}[i%3], OmitZero: i%2 == 1,
 			RootPos: []string{"index", "value"}[(i/2)%2], Updatable: i%5 == 0}
